@@ -46,6 +46,17 @@ TIMEOUT = {'quick': 300, 'thorough': 3400}
 #        'order': [names in creation order], 'byobj': bool per ref inside the ref}
 # ref: ['blk', name, byobj] | ['not', name] | ['const', value, wrapped]
 # ------------------------------------------------------------------------------------------
+def dn(v):
+    """Decode an exact number kept JSON-friendly in the spec: ['D', text] / ['F', num, den]."""
+    if isinstance(v, list) and v and v[0] == 'D':
+        import decimal
+        return decimal.Decimal(v[1])
+    if isinstance(v, list) and v and v[0] == 'F':
+        import fractions
+        return fractions.Fraction(v[1], v[2])
+    return v
+
+
 def ref_value(ref, val):
     kind = ref[0]
     if kind == 'blk':
@@ -73,6 +84,8 @@ def func_impl(fname):
         return lambda args: sum(int(x) for x in args)
     if fname == 'ident':
         return lambda x: x
+    if fname == 'add':
+        return lambda *a: sum(a)
     if fname == 'count_kw':
         return lambda *a, g=(), s=0: (len(a), sum(1 for x in g if x), bool(s))
     raise AssertionError(fname)
@@ -101,7 +114,7 @@ def cblock_ref_output(cb, val, current):
         return f(tuple(args), **kw)
     if t == 'Compare':
         x = args[0]
-        low, high = cb['params']['low'], cb['params']['high']
+        low, high = dn(cb['params']['low']), dn(cb['params']['high'])
         if current is True and x >= low:
             return True
         if current is False and x < high:
@@ -239,8 +252,15 @@ def build_circuit(spec):
                 created[name] = edzed.Input(name, initdef=d['init'], on_output=edzed.Event(
                     created['sinkc'], edzed.EventCond('inc', 'nosuch'),
                     efilter=edzed.not_from_undef))
+            elif d['kind'] == 'Input' and d.get('filter_not'):
+                # the inverted output of another block is requested ONLY by an event filter:
+                # the '_not_NAME' block is then created by the name resolver
+                if 'sinkc' not in created:
+                    created['sinkc'] = edzed.Counter('sinkc', initdef=0)
+                created[name] = edzed.Input(name, initdef=dn(d['init']), on_output=edzed.Event(
+                    created['sinkc'], 'inc', efilter=edzed.IfOutput('_not_' + d['filter_not'])))
             elif d['kind'] == 'Input':
-                created[name] = edzed.Input(name, initdef=d['init'])
+                created[name] = edzed.Input(name, initdef=dn(d['init']))
             else:
                 created[name] = edzed.Counter(name, initdef=d['init'])
         elif kind == 'fed':
@@ -262,7 +282,8 @@ def build_circuit(spec):
             elif t == 'Override':
                 blk = edzed.Override(name, null_value=d['params']['null'], **kw)
             elif t == 'Compare':
-                blk = edzed.Compare(name, low=d['params']['low'], high=d['params']['high'], **kw)
+                blk = edzed.Compare(name, low=dn(d['params']['low']), high=dn(d['params']['high']),
+                                    **kw)
             else:
                 blk = edzed.FuncBlock(name, func=func_impl(d['params']['func']),
                                       unpack=d['params']['unpack'], **kw)
@@ -322,6 +343,10 @@ def run_spec(spec, bursts, ctx, case):
                     compare_evals.append((cb, prev, blk._in['_'][0], res))
                     return res
                 blk.calc_output = calc
+        if spec.get('explicit_finalize'):
+            # docs: "The completed circuit may be explicitly finalized."
+            ctx.count('explicitly_finalized_circuits')
+            edzed.get_circuit().finalize()
         return created
 
     async def drive(sim, created):
@@ -342,7 +367,7 @@ def run_spec(spec, bursts, ctx, case):
             for name, etype, value in burst:
                 try:
                     if etype == 'put':
-                        edzed.ExtEvent(created[name], 'put').send(value)
+                        edzed.ExtEvent(created[name], 'put').send(dn(value))
                     else:
                         edzed.ExtEvent(created[name], etype).send()
                 except edzed.EdzedUnknownEvent as err:
@@ -399,11 +424,16 @@ def run_spec(spec, bursts, ctx, case):
         ctx.count('aborted_runs')
         raise core.Violation('simulation-aborted', f"simulation of an acyclic circuit ended: {err!r}")
     for cb, prev, x, res in compare_evals:
-        low, high = cb['params']['low'], cb['params']['high']
+        low, high = dn(cb['params']['low']), dn(cb['params']['high'])
         if x >= high:
             exp = True
         elif x < low:
             exp = False
+        elif prev is edzed.UNDEF and cb['params'].get('exact'):
+            # thresholds of an exact type (Decimal, Fraction, huge int): the mean of the
+            # thresholds need not be representable; the first decision inside the zone is
+            # not judged
+            exp = None
         elif prev is edzed.UNDEF:
             ctx.count('compare_first_decisions')
             mid = (low + high) / 2
@@ -522,7 +552,10 @@ def random_spec(rng):
             r = rng.random()
             pool = [n for n in nodes if not need_num or n[1] == 'num']
             if r < 0.12 or not pool:
-                v = rng.choice([True, False, 0, 1, 5]) if need_num or rng.random() < 0.8 else 'k'
+                # (-1 and -2, n and n + 2**61-1 have equal hashes in CPython; 0.0 / -0.0 and
+                # 1 / True / 1.0 are equal: each is a constant of its own)
+                v = rng.choice([True, False, 0, 1, 5, -1, -2, 3, 3 + 2 ** 61 - 1, 1.0, 2.5]) \
+                    if need_num or rng.random() < 0.8 else 'k'
                 # a string constant must be wrapped (a plain string is a block name)
                 wrapped = isinstance(v, str) or rng.random() < 0.5
                 return ['const', v, wrapped], 'num' if not isinstance(v, str) else 'obj'
@@ -587,8 +620,140 @@ def random_spec(rng):
     rng.shuffle(order)
     spec = {'sources': sources, 'fed': fed, 'cblocks': cblocks, 'order': order}
     spec['shortcuts'] = collect_shortcuts(cblocks)
-    if rng.random() < 0.15:
+    if rng.random() < 0.2:
+        # an inverted output used by an event filter only (IfOutput accepts '_not_NAME')
+        cands = [s for s in sources if s['kind'] == 'Input' and not s.get('obj')
+                 and not s.get('faulty_event')]
+        target = rng.choice([s['name'] for s in sources if not s.get('obj')] or [None])
+        if cands and target is not None:
+            rng.choice(cands)['filter_not'] = target
+            if target not in spec['shortcuts']:
+                spec['shortcuts'] = list(spec['shortcuts']) + [target]
+    if rng.random() < 0.25:
+        spec['explicit_finalize'] = True
+    if rng.random() < 0.15 and not spec.get('explicit_finalize'):
+        # (the harness attaches the storage after build(); not possible once finalized)
         spec['storage'] = 'shelf'
+    return spec
+
+
+EXACT_THRESHOLDS = {
+    # float() of these is above / below the exact value - a comparator must not care
+    'D': [('0.1', '0.3'), ('0.7', '0.7'), ('1.1', '2.2'), ('0.3', '0.6'), ('2.675', '2.675')],
+    'F': [((1, 3), (2, 3)), ((1, 10), (3, 10)), ((2, 7), (2, 7)), ((1, 3), (10 ** 20 + 1, 10 ** 20))],
+    'big': [(2 ** 53, 2 ** 53 + 1), (2 ** 53 + 1, 2 ** 53 + 1), (2 ** 60 + 1, 2 ** 60 + 3),
+            (10 ** 30 + 1, 10 ** 30 + 2)],
+}
+
+
+def exact_compare_spec(rng):
+    """
+    Compare with thresholds of an exact numeric type (Decimal, Fraction, integers beyond 2**53)
+    and inputs of the same type exactly at / just beside the thresholds.
+    """
+    import decimal
+    import fractions
+    kind = rng.choice(['D', 'F', 'big'])
+    lo, hi = rng.choice(EXACT_THRESHOLDS[kind])
+    if kind == 'D':
+        enc = lambda d: ['D', str(d)]
+        lo, hi, eps = decimal.Decimal(lo), decimal.Decimal(hi), decimal.Decimal('1e-20')
+    elif kind == 'F':
+        enc = lambda f: ['F', f.numerator, f.denominator]
+        lo, hi, eps = fractions.Fraction(*lo), fractions.Fraction(*hi), fractions.Fraction(1, 10 ** 22)
+    else:
+        enc = lambda i: i
+        eps = 1
+    cands = [lo - eps, lo, lo + eps, hi - eps, hi, hi + eps, lo - 3 * eps, hi + 3 * eps]
+    sources = [{'name': 'x0', 'kind': 'Input', 'init': enc(rng.choice(cands)), 'exactvals': True},
+               {'name': 'i1', 'kind': 'Input', 'init': rng.random() < 0.5}]
+    via = rng.random() < 0.3
+    cblocks = []
+    if via:
+        cblocks.append({'name': 'pass', 'type': 'Func', 'args': [['blk', 'x0', rng.random() < 0.5]],
+                        'kw': {}, 'kwgroup': {}, 'params': {'func': 'ident', 'unpack': True}})
+    cblocks.append({'name': 'cmp', 'type': 'Compare',
+                    'args': [['blk', 'pass' if via else 'x0', rng.random() < 0.5]], 'kw': {},
+                    'kwgroup': {}, 'params': {'low': enc(lo), 'high': enc(hi), 'exact': True}})
+    cblocks.append({'name': 'out', 'type': rng.choice(['And', 'Or', 'Xor']),
+                    'args': [['blk', 'cmp', True], ['not', 'i1']], 'kw': {}, 'kwgroup': {},
+                    'params': {}})
+    order = ['x0', 'i1'] + [c['name'] for c in cblocks]
+    rng.shuffle(order)
+    spec = {'sources': sources, 'fed': [], 'cblocks': cblocks, 'order': order}
+    spec['shortcuts'] = collect_shortcuts(cblocks)
+    bursts = []
+    for _ in range(rng.randrange(6, 16)):
+        if rng.random() < 0.85:
+            bursts.append([('x0', 'put', enc(rng.choice(cands)))])
+        else:
+            bursts.append([('i1', 'put', rng.random() < 0.5)])
+    return spec, bursts
+
+
+def type_flip_spec(rng):
+    """
+    First-level blocks whose successive outputs are EQUAL but distinguishable (1 -> True,
+    2 -> 2.0), feeding type-sensitive second-level blocks.
+    """
+    sources = [{'name': 'i0', 'kind': 'Input', 'init': 1}, {'name': 'i1', 'kind': 'Input', 'init': None},
+               {'name': 'i2', 'kind': 'Input', 'init': 1}, {'name': 'i3', 'kind': 'Input', 'init': 1}]
+    blank = {'kw': {}, 'kwgroup': {}, 'params': {}}
+    cblocks = [
+        {'name': 'ovr', 'type': 'Override', 'args': [], 'kw': {'input': ['blk', 'i0', rng.random() < 0.5],
+                                                            'override': ['blk', 'i1', False]},
+         'kwgroup': {}, 'params': {'null': None}},
+        {**blank, 'name': 'tot', 'type': 'Func', 'args': [['blk', 'i2', True], ['blk', 'i3', False]],
+         'params': {'func': 'add', 'unpack': True}},
+        {**blank, 'name': 'fmt1', 'type': 'Func', 'args': [['blk', 'ovr', rng.random() < 0.5]],
+         'params': {'func': 'typed', 'unpack': True}},
+        {**blank, 'name': 'fmt2', 'type': 'Func', 'args': [['blk', 'tot', rng.random() < 0.5]],
+         'kw': {'x': ['blk', 'ovr', False]}, 'params': {'func': 'typed', 'unpack': True}},
+        {**blank, 'name': 'pass1', 'type': 'Func', 'args': [['blk', 'tot', True]],
+         'params': {'func': 'ident', 'unpack': True}},
+        {**blank, 'name': 'fmt3', 'type': 'Func', 'args': [['blk', 'pass1', True]],
+         'params': {'func': 'typed', 'unpack': rng.random() < 0.5}},
+    ]
+    order = [s['name'] for s in sources] + [c['name'] for c in cblocks]
+    rng.shuffle(order)
+    spec = {'sources': sources, 'fed': [], 'cblocks': cblocks, 'order': order, 'shortcuts': []}
+    bursts = []
+    for _ in range(rng.randrange(6, 14)):
+        r = rng.random()
+        if r < 0.4:
+            bursts.append([('i1', 'put', rng.choice([None, True, 1, 1.0]))])
+        elif r < 0.5:
+            bursts.append([('i0', 'put', rng.choice([1, 0, 2]))])
+        else:
+            a, b = rng.choice([(1, 1), (0.5, 1.5), (2, 0), (1.0, 1.0), (True, True), (1, 2)])
+            bursts.append([('i2', 'put', a), ('i3', 'put', b)])
+    return spec, bursts
+
+
+def wide_spec(rng):
+    """
+    Hundreds of combinational blocks, each fed directly by the sources (depth 1, a few of depth
+    2): one evaluation per block and burst, but the very first evaluation of the circuit is long.
+    """
+    sources = [{'name': 'i0', 'kind': 'Input', 'init': rng.random() < 0.5},
+               {'name': 'i1', 'kind': 'Input', 'init': rng.random() < 0.5},
+               {'name': 'n2', 'kind': 'Counter', 'init': rng.randrange(0, 4)}]
+    srcrefs = [['blk', 'i0', True], ['blk', 'i1', False], ['blk', 'n2', False], ['not', 'i0'],
+               ['const', True, False], ['const', 0, True]]
+    cblocks = []
+    for k in range(rng.choice([160, 220, 320, 400])):
+        t = rng.choice(['Not', 'And', 'Or', 'Xor'])
+        refs = list(srcrefs)
+        if k >= 20 and rng.random() < 0.1:
+            refs.append(['blk', f"c{rng.randrange(0, 20)}", True])
+        args = [list(rng.choice(refs))] if t == 'Not' else [list(rng.choice(refs))
+                                                             for _ in range(rng.choice([2, 3]))]
+        cblocks.append({'name': f"c{k}", 'type': t, 'args': args, 'kw': {}, 'kwgroup': {},
+                        'params': {}})
+    order = [s['name'] for s in sources] + [c['name'] for c in cblocks]
+    rng.shuffle(order)
+    spec = {'sources': sources, 'fed': [], 'cblocks': cblocks, 'order': order}
+    spec['shortcuts'] = collect_shortcuts(cblocks)
     return spec
 
 
@@ -618,6 +783,9 @@ def reset_loop_spec(rng):
     rng.shuffle(order)
     spec['order'] = order
     spec['shortcuts'] = collect_shortcuts(spec['cblocks'])
+    for src in spec['sources']:
+        if src.get('filter_not') and src['filter_not'] not in spec['shortcuts']:
+            spec['shortcuts'].append(src['filter_not'])
     return spec
 
 
@@ -674,14 +842,26 @@ def run_shard(ctx):
     done = 0
     while done < n:
         loop = rng.random() < 0.12
-        spec = reset_loop_spec(rng) if loop else random_spec(rng)
+        wide = not loop and rng.random() < 0.015
+        exact = not loop and not wide and rng.random() < 0.09
+        if exact and rng.random() < 0.45:
+            spec, exact_bursts = type_flip_spec(rng)
+            ctx.count('equal_but_distinguishable_value_circuits')
+        elif exact:
+            spec, exact_bursts = exact_compare_spec(rng)
+            ctx.count('compare_exact_number_type_circuits')
+        else:
+            spec = reset_loop_spec(rng) if loop else wide_spec(rng) if wide else random_spec(rng)
+        if wide:
+            ctx.count('circuits_with_hundreds_of_cblocks')
         nblocks = len(spec['order']) + len(spec['shortcuts'])
         ok, total = eval_bound(spec, nblocks)
         if not ok:
             ctx.count('discarded_eval_bound')
             continue
         done += 1
-        bursts = reset_loop_bursts(rng, spec) if loop else random_bursts(rng, spec)
+        bursts = exact_bursts if exact else reset_loop_bursts(rng, spec) if loop \
+            else random_bursts(rng, spec)
         if loop:
             ctx.count('event_loop_circuits')
         case = {'spec': spec, 'bursts': bursts}
